@@ -338,16 +338,22 @@ class Interp:
         if op in ("AND", "OR", "MOD"):
             x = va if isinstance(va, int) else round_half_away(va)
             y = vb if isinstance(vb, int) else round_half_away(vb)
-            if not (I16[0] <= x <= I16[1] and I16[0] <= y <= I16[1]):
+            small = I16[0] <= x <= I16[1] and I16[0] <= y <= I16[1]
+            if not (I32[0] <= x <= I32[1] and I32[0] <= y <= I32[1]):
+                # beyond the LONG range: whether that is Overflow for every operator is not pinned down here
                 raise Discard("int_operand_range")
-            if op == "AND":
-                return ("%", to_i16((x & 0xFFFF) & (y & 0xFFFF)))
-            if op == "OR":
-                return ("%", to_i16((x & 0xFFFF) | (y & 0xFFFF)))
+            if op in ("AND", "OR"):
+                if small:
+                    r16 = (x & 0xFFFF) & (y & 0xFFFF) if op == "AND" else (x & 0xFFFF) | (y & 0xFFFF)
+                    return ("%", to_i16(r16))
+                # one operand needs a LONG: the bitwise operation on 32-bit two's-complement words
+                r32 = (x & 0xFFFFFFFF) & (y & 0xFFFFFFFF) if op == "AND" else (x & 0xFFFFFFFF) | (y & 0xFFFFFFFF)
+                return ("&", r32 - (1 << 32) if r32 >= (1 << 31) else r32)
             if y == 0:
                 raise BasicError(11)
             q = abs(x) % abs(y)
-            return ("%", q if x >= 0 else -q)
+            long_result = ta == "&" or tb == "&" or not small
+            return ("&" if long_result else "%", q if x >= 0 else -q)
         if op == "/":
             d = Fraction(vb)
             if d == 0:
